@@ -21,6 +21,17 @@ pub const SETUP: &str = "
 (define (getu) u)
 (define (setparam p) (set! p 99) p)
 (define (bump-w) (set! w (+ w 1)) w)
+(define (make-node)
+  (define total 0)
+  (define next #f)
+  (lambda (msg x)
+    (set! total (+ total (if (= msg 2) x 0)))
+    (if (= msg 0) (set! next x) (if (= msg 1) total (if next (next 2 x) total)))))
+(define na (make-node))
+(define nb (make-node))
+(define nc (make-node))
+(na 0 nb)
+(nb 0 nc)
 ";
 
 pub const OPS: &[&str] = &[
@@ -67,12 +78,16 @@ pub const OPS: &[&str] = &[
     "(define cbox (vector c1))",
     "(vector-set! cbox 0 c2)",
     "((vector-ref cbox 0))",
+    // a chain of sibling closures (one maker, private totals): each adds to its own total and
+    // tail-calls the next one
+    "(na 2 5)",
+    "(nb 2 1)",
 ];
 
 /// destructive probes, run after the canonical state has been taken
 pub const PROBES: &[&str] = &[
     "u", "w", "(getu)", "(c1)", "(c2)", "((cadr d1))", "((car d1))", "((cadr d1))", "((cadr d2))", "(getw)", "w", "v1", "v2", "l", "vv", "mv", "(setparam u)", "u",
-    "(bump-w)", "w", "n", "box", "((vector-ref cbox 0))", "(c1)", "(c2)", "(vector-set! v1 0 7)", "v1", "v2", "l", "vv", "mv", "(setter 0 8)", "v1", "v2", "box", "(vector-set! v2 1 6)", "box", "v1", "n",
+    "(bump-w)", "w", "n", "box", "((vector-ref cbox 0))", "(c1)", "(c2)", "(vector-set! v1 0 7)", "v1", "v2", "l", "vv", "mv", "(setter 0 8)", "v1", "v2", "box", "(vector-set! v2 1 6)", "box", "v1", "n", "(na 1 0)", "(nb 1 0)", "(nc 1 0)", "(na 2 3)", "(list (na 1 0) (nb 1 0) (nc 1 0))",
 ];
 
 /// places whose values may be vectors: the alias partition is computed over them
